@@ -188,8 +188,19 @@ def build_config(case: dict, external: bool) -> dict:
             opt[name] = True
     if case.get("options") is not None:
         opt["options"] = dict(case["options"])
+    if case.get("np_options"):
+        # numpy scalars in the free-form options (F20g): {"maxiter": ["int64", 3], "disp": ["bool_", false], ...}
+        opt.setdefault("options", {})
+        for key, (kind, value) in case["np_options"].items():
+            opt["options"][key] = getattr(np, kind)(value)
+    if case.get("unenc"):
+        # an option value JSON cannot encode (F20f): the solver ignores the unknown option in-process; the external run
+        # may end with an error, but without a process left behind and without hanging
+        opt.setdefault("options", {})
+        opt["options"]["verif_extra"] = {1, 2} if case["unenc"] == "set" else object()
     for key, value in _output_paths(case, external).items():
         opt[key] = value
+    case_pad = case.get("pad")
     if case.get("ncon"):
         cfg["nonlinear_constraints"] = {
             "lower_bounds": [(-np.inf if v is None else v) for v in case["con_lower"]],
@@ -210,6 +221,14 @@ def build_config(case: dict, external: bool) -> dict:
             "lower_bounds": [(-np.inf if v is None else v) for v in lin["lower"]],
             "upper_bounds": [(np.inf if v is None else v) for v in lin["upper"]],
         }
+    if case_pad and not case.get("_nopad"):
+        # an ignored option string pads the config MESSAGE of the external run (JSON + delimiter line) to the pipe
+        # capacity + pad bytes, so that the pipe cuts it inside the delimiter line (seeded C20_k); same string in-process
+        from ropt.config.enopt import EnOptConfig
+        ext_cfg = build_config({**case, "_nopad": True}, external=True)
+        ext_cfg["optimizer"].setdefault("options", {})["comment"] = ""
+        size = len(json.dumps(EnOptConfig.model_validate(ext_cfg).model_dump(round_trip=True), cls=_np_encoder()))
+        opt.setdefault("options", {})["comment"] = "x" * (PIPE_CAPACITY + int(case_pad) - len("\n--READY--\n") - size)
     return cfg
 
 
@@ -619,7 +638,7 @@ def _run_impl_inner(case: dict, scratch: Path) -> dict:
     wire = json.loads(json.dumps(dump1, cls=_np_encoder()))     # (paths as text: what F20d's repair sends)
     dump2 = EnOptConfig.model_validate(wire).model_dump(round_trip=True)
     cfg_digest = "cfg:" + _digest(bitify(wire))
-    cfg_roundtrip = _same_config(wire, json.loads(json.dumps(dump2, cls=_np_encoder())))
+    cfg_roundtrip = bool(case.get("unenc")) or _same_config(wire, json.loads(json.dumps(dump2, cls=_np_encoder())))
 
     inproc = _run_once(case, external=False, deadline=INPROC_DEADLINE_S)
     (scratch / "stage").write_text("external")
@@ -650,6 +669,9 @@ def _run_impl_inner(case: dict, scratch: Path) -> dict:
             skip["read"] = sched[0]
             os.write(plog_fd, (json.dumps({"r": bitify(data)}) + "\n").encode())
             nread[0] += 1
+            if nread[0] == 1:
+                _wait_child_logged(clog, 1)      # if the child is terminated next (the first answer cannot be written),
+                                                 # it has at least logged the message it wrote
             if fault[0] == "wkill" and nread[0] == int(fault[1]) and not wfault["fired"]:
                 # the child is blocked in _request, waiting for the answer to the message just read:
                 # it is killed now, from outside, and is dead before the parent goes on
@@ -712,6 +734,11 @@ def _run_impl_inner(case: dict, scratch: Path) -> dict:
             "limit_ms": int(limit * 1000),
             "after_ms": int((time.time() - t_end) * 1000),
         })
+        if case.get("unenc"):
+            # the fault of such a case is "the parent cannot write its first answer": it happened when the external run
+            # raised before anything was written; a tree that manages to send the value runs as if there was no fault
+            failed = external["out"][0] == "raise" and not any(k == "w" for k, _ in external["pwire"])
+            external["fault_fired"], external["survived"] = failed, not failed
     finally:
         ext._JSONPipeCommunicator.read, ext._JSONPipeCommunicator.write = orig_read, orig_write
         tempfile.tempdir = saved_tmp
@@ -722,8 +749,84 @@ def _run_impl_inner(case: dict, scratch: Path) -> dict:
             else:
                 os.environ[k] = v
         _kill_stray(pid, pidfile)
-    return {"cfg_roundtrip": bool(cfg_roundtrip), "cfg_digest": cfg_digest, "inproc": inproc, "ext": external,
-            "process_timeout_ms": int(_process_timeout() * 1000)}
+    obs = {"cfg_roundtrip": bool(cfg_roundtrip), "cfg_digest": cfg_digest, "inproc": inproc, "ext": external,
+           "process_timeout_ms": int(_process_timeout() * 1000)}
+    if case.get("framing"):
+        (scratch / "stage").write_text("framing")
+        obs["framing"] = _framing_probe(case["framing"], scratch)
+    return obs
+
+
+PIPE_CAPACITY = 65536
+
+
+def _framing_feeds(mode: str):
+    """(message, cut offsets) of a framing probe.  `delimiter`: short messages of every kind the protocol has, cut in
+    two at EVERY offset and in three inside / around the delimiter line; `capacity`: messages of 65536*k + d bytes
+    (d = -12..12, k = 1, 2) cut where a pipe of that capacity cuts them (the seeded C20_k region: d = 1..9 puts the
+    cut inside the 10-byte delimiter line), and big messages cut at every offset around the delimiter line."""
+    tail = len("\n--READY--\n")
+    if mode == "delimiter":
+        for msg in ({"evaluation": {"variables": [1.0, -2.5e-3], "return_functions": True, "return_gradients": False}},
+                    "abort", "config", [0.25, 1e300], {"error": ""}, {"functions": [float("inf")], "gradients": []}):
+            n = len(json.dumps(msg)) + tail
+            for cut in range(1, n):
+                yield msg, [cut]
+            for a in range(n - tail - 2, n - 1):
+                for b in range(a + 1, n):
+                    yield msg, [a, b]
+        return
+    for k in (1, 2):
+        for d in range(-12, 13):
+            n = PIPE_CAPACITY * k + d
+            msg = {"error": "x" * (n - tail - len(json.dumps({"error": ""})))}
+            yield msg, [PIPE_CAPACITY * j for j in range(1, k + 1) if PIPE_CAPACITY * j < n]
+    n = PIPE_CAPACITY - 5000          # (one piece must fit into the pipe: the probe itself is the writer)
+    msg = {"error": "y" * (n - tail - len(json.dumps({"error": ""})))}
+    for cut in range(n - tail - 3, n):
+        yield msg, [cut]
+
+
+def _framing_probe(mode: str, scratch: Path) -> dict:
+    """Feed the real _JSONPipeCommunicator.read through a real FIFO, piece by piece with a read() after every piece:
+    nothing may be returned before the last piece, the exact message after it."""
+    import ropt.plugins.optimizer.external as ext
+    feeds, failures = 0, []
+    root = scratch / "framing"
+    root.mkdir(exist_ok=True)
+    for msg, cuts in _framing_feeds(mode):
+        feeds += 1
+        data = f"{json.dumps(msg)}\n{ext._JSONPipeCommunicator.DELIMITER}\n".encode()
+        pieces = [data[a:b] for a, b in zip([0] + cuts, cuts + [len(data)])]
+        rfifo, wfifo = root / f"r{feeds}", root / f"w{feeds}"
+        got, early = None, None
+        try:
+            with ext._JSONPipeCommunicator(rfifo, wfifo, timeout=0.05) as comm:
+                wfd = os.open(rfifo, os.O_WRONLY)
+                try:
+                    for i, piece in enumerate(pieces):
+                        os.write(wfd, piece)
+                        for _ in range(1 if i + 1 < len(pieces) else 8):
+                            got = comm.read()
+                            if got is not None:
+                                break
+                        if got is not None and i + 1 < len(pieces):
+                            early = got
+                            break
+                finally:
+                    os.close(wfd)
+        except Exception as exc:  # noqa: BLE001 - the observation is the exception
+            got = f"{type(exc).__name__}: {exc}"[:80]
+        finally:
+            for f in (rfifo, wfifo):
+                try:
+                    f.unlink()
+                except OSError:
+                    pass
+        if early is not None or bitify(got) != bitify(msg):
+            failures.append({"length": len(data), "cuts": cuts, "message": repr(msg)[:40],
+                             "got": "nothing" if got is None else repr(got)[:60], "early": early is not None})
+    return {"mode": mode, "feeds": feeds, "failures": failures[:6], "nfail": len(failures)}
 
 
 # sections of the configuration the optimizer in the child reads: they must survive the pipe bit by bit;
@@ -750,10 +853,12 @@ def _np_encoder():
 
     class Enc(json.JSONEncoder):
         def default(self, obj):
-            if isinstance(obj, np.ndarray):
+            if isinstance(obj, (np.ndarray, np.generic)):
                 return obj.tolist()
             if isinstance(obj, Path):
                 return str(obj)
+            if isinstance(obj, (set, frozenset)) or type(obj) is object:
+                return {"$unencodable": type(obj).__name__}      # (harness-side digest of an `unenc` case only)
             return super().default(obj)
     return Enc
 
@@ -865,6 +970,10 @@ def _fault_terms(case: dict, survived: bool = False) -> tuple[str, str]:
     f = case.get("fault") or ["none"]
     if survived:
         return "NoFault", "None"
+    if case.get("unenc"):
+        # comm.write of the answer to message 1 (the config) raises; the child, blocked waiting for it, is terminated by
+        # the parent (SIGTERM): in the model this is the write error `ExPipe` with the child gone = DieWaiting 1 SIGTERM
+        return "(DieWaiting 1%nat 15%positive)", "None"
     if f[0] == "kill":
         return f"(DieAfter {cq.nat(f[1])} {_sig(f)})", "None"
     if f[0] == "rkill":
@@ -906,6 +1015,7 @@ def coq_case(case: dict, obs: dict) -> str:
         cq.nat(min(len(e["fifo_left"]), 1000)),
         cq.nat(min(len(i["stray"]) + len(e["stray"]) + (1 if e["wire_broken"] else 0), 1000)),
         cq.b(i.get("files_ok", True) and e.get("files_ok", True)),
+        cq.b(not (obs.get("framing") or {}).get("nfail")),
         f"({int(e['wall_ms'])})%Z",
     ]
     return "(Build_case\n " + "\n ".join(fields) + ")"
@@ -926,7 +1036,7 @@ def _finished_code() -> int:
 
 
 def _faulted(case: dict) -> bool:
-    return (case.get("fault") or ["none"])[0] != "none"
+    return (case.get("fault") or ["none"])[0] != "none" or bool(case.get("unenc"))
 
 
 def oracle(case: dict, obs: dict):
@@ -954,6 +1064,8 @@ def oracle(case: dict, obs: dict):
                            "error_reported": error_reported, "out": e["out"]}}
     if not obs["cfg_roundtrip"]:
         return {"clause": "config-roundtrip", "detail": "dump -> JSON -> validate -> dump differs"}
+    if (obs.get("framing") or {}).get("nfail"):
+        return {"clause": "lossless-channel(framing)", "detail": obs["framing"]}
     if not (i.get("files_ok", True) and e.get("files_ok", True)):
         return {"clause": "output-files", "detail": {"paths": case.get("paths"), "inproc": i.get("files_ok"),
                                                      "external": e.get("files_ok")}}
@@ -1010,6 +1122,11 @@ def features(case: dict, obs: dict) -> dict:
         "eval_raise_at": case.get("eval_raise_at") is not None,
         "eval_raise_kind": case.get("eval_raise_kind", "exception") if case.get("eval_raise_at") is not None else "-",
         "qualified_name": bool(case.get("qualified")),
+        "framing_probe": case.get("framing") or "-",
+        "config_message_padded": case.get("pad") or "-",
+        "framing_feeds": (obs.get("framing") or {}).get("feeds", 0),
+        "numpy_scalar_options": "-" if not case.get("np_options") else "+".join(sorted(v[0] for v in case["np_options"].values())),
+        "unencodable_option": case.get("unenc") or "-",
         "output_paths": "-" if not case.get("paths") else "".join("1" if v else "0" for v in case["paths"]),
         "pipe_schedule": "-" if not case.get("sched") else "".join(str(min(int(v), 9)) for v in case["sched"]),
         "one_sided_bounds": any(v is None for key in ("lower", "upper") for v in (case.get(key) or [])),
@@ -1059,6 +1176,13 @@ def rand_base(rng, method: str | None = None, flavour: str | None = None) -> dic
             case[side] = [None if rng.random() < 0.6 else v for v in case[side]]
     if rng.random() < 0.25:
         case["qualified"] = True          # external/scipy/<method> against scipy/<method>
+    if method != "differential_evolution" and rng.random() < 0.25:
+        # numpy scalars in optimizer.options (F20g)
+        tol_key = "fatol" if method == "nelder-mead" else "ftol"
+        pick = rng.choice([["maxiter"], ["maxiter", tol_key], ["disp", "maxiter"], [tol_key], ["disp", "maxiter", tol_key]])
+        values = {"maxiter": ["int64", rng.choice([1, 2, 3])], tol_key: ["float64", rng.choice([1e-6, 0.0009765625])],
+                  "disp": ["bool_", False]}
+        case["np_options"] = {k: values[k] for k in pick if not (k == "disp" and method == "l-bfgs-b")}
     if rng.random() < 0.2:
         # optimizer.output_dir / stdout / stderr (paths inside the configuration message; F20d)
         case["paths"] = rng.choice([[True, "opt.out", None, False], [True, "opt.out", "opt.err", False],
@@ -1201,6 +1325,22 @@ def gen_cases(tier, rng):
         if c["method"] != "nelder-mead":
             c["max_functions"] = min(int(c.get("max_functions") or 3), 3)
         yield c
+    # (a3) framing: the communicator fed through a real FIFO in pieces (corpus: framing_delimiter / framing_capacity on
+    #      every run) and end-to-end runs whose config message is the pipe capacity + 1..9 bytes
+    for d in ([5] if quick else range(1, 10)):
+        c = rand_base(rng, METHODS[d % 3], "plain")
+        for key in ("paths", "np_options", "options"):
+            c.pop(key, None)
+        c["pad"] = d
+        if not quick and d % 4 == 1:
+            c["framing"] = ["delimiter", "capacity"][(d // 4) % 2]
+        yield c
+    # (a'') an option value JSON cannot encode: the external run may fail, but cleanly (F20f)
+    for i in range(2 if quick else 8):
+        c = rand_base(rng, METHODS[i % 3], "plain")
+        c.pop("np_options", None)
+        c["unenc"] = ["set", "object"][i % 2]
+        yield c
     if BIG_MESSAGES and not quick:
         yield big_base(rng)           # (quick: corpus/C20/f20e_big_config.json)
         yield big_base(rng, wide=True)
@@ -1292,7 +1432,11 @@ RULE = ("every case = one in-process run and one run through external/<method> (
         "PATH wrapper) of the same seeded configuration, in a forked process group of its own (hard kill after 330 s = hang): "
         "methods slsqp / l-bfgs-b / nelder-mead / differential_evolution(seed, also parallel), named <m> or scipy/<m>, with "
         "1-2 objectives, 1-3 realizations, nonlinear and linear constraints, two- and one-sided bounds, variable masks, explicit "
-        "start vectors, speculative / split evaluations, max_functions / maxiter, optimizer.output_dir / stdout / stderr paths, a "
+        "start vectors, speculative / split evaluations, max_functions / maxiter, optimizer.output_dir / stdout / stderr paths, "
+        "config messages of pipe capacity + 1..9 bytes, a framing probe (the real _JSONPipeCommunicator.read fed through a FIFO in "
+        "pieces: short messages cut at every offset, 65536*k + d byte messages cut at the capacity), "
+        "numpy scalars (int64 / float64 / bool_) in optimizer.options, an option value JSON cannot encode (set / object(): the "
+        "external run may raise, without orphan or hang), a "
         "configuration with 800 linear constraints / 1800 variables (messages above the pipe capacity), "
         "NaN failures (tolerated, too-few, allowed for DE), user abort before or after evaluation j with exit code 4/0/1/3, the "
         "user's evaluator raising an Exception or a BaseException at call j, an optimizer option that makes the optimizer itself "
@@ -1325,7 +1469,9 @@ TRUSTED = [
     "OS behaviour is NOT modelled (partial): signal delivery, FIFO buffering, process scheduling and real time-outs are exercised only by the "
     "real-process correspondence (wall time below _PROCESS_TIMEOUT + 90 s, child pid not alive, FIFO directory empty); the model places the "
     "death of a child that is killed while it waits for an answer at the parent's write of that answer (where it becomes observable) and "
-    "assumes that writing into a FIFO without reader fails at once",
+    "assumes that writing into a FIFO without reader fails at once; an answer that cannot be encoded as JSON (`unenc` cases) is "
+    "judged through the same write-error outcome (`ExPipe`, fault DieWaiting 1 SIGTERM: comm.write of the first answer raises, the "
+    "parent terminates the waiting child)",
     "harness/c20_wrapper/ropt_plugin_optimizer (PATH wrapper: imports ropt from the tree under test, pid file, child-side wire log, stderr file, "
     "kill / rkill / exit / raise faults, pipe schedule, then ropt's own entry point) and the recording monkey-patches of the harness process "
     "(EnsembleOptimizer._optimizer_callback, _JSONPipeCommunicator.read/write incl. the injected 'not ready' results and the outside kill)",
